@@ -48,8 +48,31 @@ Example C05_nonvacuous :
   seqlocks s = [].
 Proof. vm_compute. auto. Qed.
 
+(* The panic handler is user code too: it is called once (one label), with nothing locked by the bus - the Sequential
+   mutex was released by the instruction before it (C05_after_recover) - and then runs its own body, which may call back
+   into the bus, e.g. publish the failed event again ("retry"). *)
+Theorem C05_panic_handler_step : forall P cfg s a p h rest s' ls,
+  step_instr P cfg s a (IPanicHandler p h) rest = Some (s', ls) ->
+  assoc_get (code s') a = Some (acts (panic_acts P (pb_val (get_pub s p))) ++ rest) /\ ls = [LPanicHandler p (r_id h)] /\
+  seqlocks s' = seqlocks s /\ registry s' = registry s /\ inflight s' = inflight s.
+Proof. exact panic_handler_step. Qed.
+Print Assumptions C05_panic_handler_step.
+
+(* the retry: a synchronous Sequential handler panics on every event; the panic handler publishes the failed event again
+   (once: only for values below the threshold); the handler is entered again from inside the panic handler - its mutex is
+   free - panics again, is reported again, and the publisher comes back with nothing locked *)
+Example C05_retry_from_the_panic_handler :
+  let P := {| p_bodies := [(0, {| b_acts := [] |}); (1, {| b_acts := [APanic 7] |}); (panic_body, {| b_acts := [APub 0 51 CtxBg false] |})];
+              p_filters := []; p_routes := fun _ => 0; p_nshards := 32; p_pfault := fun _ => PfOk |} in
+  let sp := {| h_fn := 0; h_once := false; h_async := false; h_seq := true; h_ctx := false; h_filter := None; h_body := 1 |} in
+  let '(s, ls) := run P (cfg_of [OPanicHandler]) (init_state [[ASub 0 sp; APub 0 1 CtxBg false]]) (repeat 0 80) in
+  filter (fun l => match l with LEnter _ _ _ | LPanicHandler _ _ => true | _ => false end) ls =
+    [LEnter 0 0 CtxBg; LPanicHandler 0 0; LEnter 1 0 CtxBg; LPanicHandler 1 0] /\
+  seqlocks s = [] /\ assoc_get (code s) 0 = Some [].
+Proof. vm_compute. auto. Qed.
+
 (* Over EVERY schedule of every program in which the only user code that panics is handler bodies (not the threads' own
-   top level, not hooks, not filters): no goroutine ever reaches the crashed state - "the panic does not reach the
+   top level, not hooks, not filters, not the panic handler itself): no goroutine ever reaches the crashed state - "the panic does not reach the
    publisher or crash the process".  Every panicking action in anybody's code is followed by the recover frame of the
    handler invocation it belongs to, at every moment of every run. *)
 Theorem C05_handler_panics_never_crash : forall P cfg threads sched,
